@@ -160,7 +160,7 @@ func ruleHostPorts(c *Ctx, rule string) {
 		var closes []ssa.CallInstruction
 		allInstrsX(fn, func(in ssa.Instruction) { // the close loop may live in a helper of OpenHostports
 			if call, ok := in.(ssa.CallInstruction); ok && call.Common().IsInvoke() && call.Common().Method.Name() == "Close" {
-				if call.Parent() == fn || call.Parent().Name() != "CloseHostports" {
+				if call.Parent() == fn || bareName(call.Parent()) != "CloseHostports" {
 					closes = append(closes, call)
 				}
 			}
